@@ -1,5 +1,5 @@
 (* Model of bufio.Reader.ReadSlice('\n') over a file that only grows, as pkg/scanner/parser/line_reader.go
-   uses it (environment, section 7 of DESIGN.md), and of one turn of lineReader.readLine's loop.
+   uses it (environment, section 7 of DESIGN.md), and of one call of lineReader.readLine.
    Definitions only.
 
    [unread] is what the reader has not consumed yet: the bytes buffered in the bufio.Reader followed by
@@ -29,24 +29,36 @@ Definition read_slice (B : nat) (unread : bytes) : bytes * rs_status :=
   | None => if Nat.leb B (length unread) then (firstn B unread, RsFull) else (unread, RsEof)
   end.
 
-(* one turn of readLine's loop: [buf] is the partial line accumulated so far (readLine's local).
-   Result: the bytes consumed from the reader, and either a returned line, "(nil, io.EOF)", or
-   "sleep and go round again" with the new partial line. *)
+(* one call of lineReader.readLine = one ReadSlice call and what readLine does with its result.
+   [buf] is the beginning of a line whose end has not been written yet (the field lineReader.buf).
+   Result: the bytes consumed from the reader, and either a returned line or "(nil, io.EOF)" with the
+   partial line kept for the next call.
+
+   [loops] selects the reader: false = the code (since the repair of finding c17-withheld-behind-partial-line):
+   on io.EOF the reader stores what it has and returns (nil, io.EOF) at once, so the worker's EOF path runs
+   (hand over the batch, or sleep 1 s) and calls again; true = the reader the code had before: the partial
+   line was a local of readLine, which went round its own loop in 200 ms sleeps (RlSleep) until the line was
+   completed or one ReadSlice filled the buffer, and returned (nil, io.EOF) only with nothing buffered. *)
 Inductive rl_result :=
 | RlLine (line : bytes)       (* return concatBufs(buf, line), nil    (delimiter found or buffer full) *)
-| RlEof                       (* return nil, io.EOF                   (nothing buffered, nothing read) *)
-| RlSleep (buf' : bytes).     (* utils.Sleep(ctx, eofSleep); continue (partial line kept) *)
+| RlEof (buf' : bytes)        (* r.buf = concatBufs(r.buf, line); return nil, io.EOF *)
+| RlSleep (buf' : bytes).     (* old reader only: utils.Sleep(ctx, eofSleep); continue (partial line kept) *)
 
-Definition read_line_turn (B : nat) (buf unread : bytes) : nat * rl_result :=
+Definition read_line_turn (loops : bool) (B : nat) (buf unread : bytes) : nat * rl_result :=
   match read_slice B unread with
   | (l, RsLine) => (length l, RlLine (buf ++ l))
   | (l, RsFull) => (length l, RlLine (buf ++ l))
   | (l, RsEof) =>
-      match buf ++ l with
-      | [] => (0, RlEof)
-      | b' => (length l, RlSleep b')
-      end
+      if loops then
+        match buf ++ l with
+        | [] => (length l, RlEof [])
+        | b' => (length l, RlSleep b')
+        end
+      else (length l, RlEof (buf ++ l))
   end.
+
+(* the reader of the code: pkg/scanner/parser/line_reader.go readLine returns at EOF *)
+Definition code_reader_loops : bool := false.
 
 (* a record: it ends a line, or it is a split piece at least as long as the buffer *)
 Definition good_rec (B : nat) (r : bytes) : Prop := (exists pre, r = pre ++ [nl]) \/ (B <= length r /\ r <> []).
